@@ -26,6 +26,7 @@ fn main() {
         "c07e" => { valmode::run_c07e(&a); return }
         "c09w" => { valmode::run_c09w(&a); return }
         "c06t" => { valmode::run_c06t(&a); return }
+        "c15s" => { valmode::run_c15s(&a); return }
         "c14t" => { trackmode::run(&a); return }
         "c20" => { valmode::run_c20(&a); return }
         "tables" => { valmode::dump_tables(&a.out); return }
